@@ -746,8 +746,95 @@ func c10Histories(c *Ctx) {
 	}
 }
 
+// c10Unpredictable: function.Unpredictable(f) is f with its implementation replaced by one that
+// returns an unknown value: "the same signature", so every clause about argument checking, the
+// checked return type, marks and declared result refinements still applies to the wrapper.  Each
+// call is compared with the same call of f itself.
+func c10Unpredictable(c *Ctx) {
+	nk := len(argKindNames)
+	for _, p := range allPSpecs() {
+		p := p
+		c.Unit(func(u *U) {
+			for tcb := 0; tcb < cbKinds; tcb++ {
+				if tcb == cbPanic {
+					continue
+				}
+				for _, rf := range []bool{false, true} {
+					for _, fs := range []fSpec{{params: []pSpec{p}, tcb: tcb, icb: implOK, refine: rf}, {varp: &p, tcb: tcb, icb: implOK, refine: rf}, {params: []pSpec{{0, 0}}, varp: &p, tcb: tcb, icb: implOK, refine: rf}} {
+						fs := fs
+						argLists(fs, 2, nk, func(args []cty.Value, kinds []int) {
+							u.Eval(1)
+							u.DistinctN(1)
+							var logF, logG []spyEvent
+							f := buildFunc(fs, &logF)
+							g := function.Unpredictable(buildFunc(fs, &logG))
+							call := func(fn function.Function) (v cty.Value, err error, pan string) {
+								defer func() {
+									if r := recover(); r != nil {
+										pan = fmt.Sprint(r)
+									}
+								}()
+								v, err = fn.Call(append([]cty.Value(nil), args...))
+								return
+							}
+							rf, ef, pf := call(f)
+							rg, eg, pg := call(g)
+							shape := "Unpredictable | " + fs.String()
+							desc := fmt.Sprintf("Unpredictable(f).Call(%s) with f = %s", argsStr(args), fs.String())
+							if pg != "" {
+								u.Violation("call.unpredictable-panics", shape, desc+" panicked: "+firstLineOf(pg))
+								return
+							}
+							if pf != "" {
+								return
+							}
+							for _, e := range logG {
+								if e.kind == "impl" {
+									u.Violation("call.unpredictable-ran-impl", shape, desc+" ran the implementation callback of f")
+									return
+								}
+							}
+							if ef != nil {
+								if eg == nil {
+									u.Violation("call.unpredictable-accepts", shape, fmt.Sprintf("%s = %s although f itself rejects the call: %v", desc, goStr(rg), ef))
+								}
+								u.Class("unpredictable-rejected")
+								return
+							}
+							if eg != nil {
+								u.Violation("call.unpredictable-rejects", shape, fmt.Sprintf("%s failed (%v) although f itself returns %s", desc, eg, goStr(rf)))
+								return
+							}
+							u.Class("unpredictable-compared")
+							fu, _ := rf.Unmark()
+							gu, _ := rg.Unmark()
+							fm, gm := rootMarks(rf), rootMarks(rg)
+							if gu.IsKnown() {
+								u.Violation("call.unpredictable-known", shape, fmt.Sprintf("%s = %s, a known value", desc, goStr(rg)))
+								return
+							}
+							// (the wrapper returns an unknown of the checked return type, which may hold
+							// placeholders that f's own result fills)
+							if !refConforms(tsOf(fu.Type()), tsOf(gu.Type())) {
+								u.Violation("call.unpredictable-type", shape, fmt.Sprintf("%s = %s, f itself returns %s", desc, goStr(rg), goStr(rf)))
+							}
+							if marksStr(gm) != marksStr(fm) {
+								u.Violation("call.unpredictable-marks", shape, fmt.Sprintf("%s = %s carries marks %s, f itself returns marks %s", desc, goStr(rg), marksStr(gm), marksStr(fm)))
+							}
+							if fs.refine && gu.Type() != cty.DynamicPseudoType && !gu.Range().DefinitelyNotNull() {
+								u.Violation("refinement-not-applied", shape, fmt.Sprintf("%s = %s lacks the declared NotNull refinement", desc, goStr(rg)))
+							}
+						})
+					}
+				}
+			}
+		})
+	}
+}
+
 func runC10(c *Ctx) {
 	c10Histories(c)
+	c10Unpredictable(c)
 	ps := allPSpecs()
 	nk := len(argKindNames)
 	// family A: one positional parameter, all callbacks
